@@ -18,11 +18,7 @@ package sourcerunner
 //@   atcall OnSourceRunnerCheckpointComplete: arg1 != nil && arg1.CheckpointId == id && arg1.SourceRunnerId == r.ID && same(arg1.SplitStates, data)
 //@   ensures called(Checkpoint) && called(OnSourceRunnerCheckpointComplete)
 
-// processEvents: a barrier is answered by createCheckpoint with the barrier's own id.
-//@ func SourceRunner.processEvents
-//@   property C16
-//@   nosafety
-//@   atcall createCheckpoint: arg0 == barrier.CheckpointId
+// processEvents: a barrier is answered by createCheckpoint with the barrier's own id (contract below).
 
 // ---- delivery (C04). A keyed event goes to exactly one operator - the one whose key group
 // range holds the key - unchanged; broadcasts go to every operator; every record read puts one
@@ -70,3 +66,14 @@ package sourcerunner
 //@   nosafety
 //@   atcall routeEvent: same(arg0, event.Key) && arg1 != nil
 //@   atcall AdvanceTime: true
+
+// Everything the operators receive goes through the output stream, in the order it was queued
+// by this loop: the loop itself never talks to the operators (a barrier or watermark sent
+// directly would overtake the placeholders of records that are still being keyed).
+//@ func SourceRunner.processEvents
+//@   property C04 C16
+//@   nosafety
+//@   atcall createCheckpoint: arg0 == barrier.CheckpointId
+//@   atcall sendOperatorEvent: false
+//@   atcall broadcastEvent: false
+//@   atcall routeEvent: false
